@@ -6,6 +6,7 @@
 import PigeonVerif.Model.Protocol
 import PigeonVerif.Proofs.WFTerm
 import PigeonVerif.Proofs.LRTerm
+import PigeonVerif.Properties.C04
 
 namespace PV
 namespace WfgProtocol
@@ -46,6 +47,49 @@ def runLrwf (c : Case) (tl : Rune → Rune) : String :=
   let nl := nullableRules E.rules (E.rules.length + 1) []
   let rk := E.rules.map (fun r => (r.name, rankSearchLR E nl (E.rules.length + 1) r.name))
   s!"lrwf {c.id} {if RT.checkLRWF E nl rk then 1 else 0}"
+
+/-! ### `pvdriver --emit-lean`: the translator half of the tie for the repository's own grammars
+
+  The case line was read back (by `pvlower -readback`) from the parser that the working tree's `pigeon` wrote for a
+  grammar of the repository. It is printed here as Lean SOURCE: the rule list as a term, plus the witness found by the
+  untrusted search. The check writes these definitions into `PigeonVerif/Generated/Grammars.lean` together with
+  `by decide` obligations, which the kernel re-checks on every run. -/
+
+def leanStrList (l : List String) : String := "[" ++ ", ".intercalate (l.map (fun s => (repr s).pretty)) ++ "]"
+
+/-- why a rule fails the checker (for the report only) -/
+def ruleProblems (E : Env) (lr : Bool) (nl : List String) (rk : List (String × Nat)) (r : Rule) : List String :=
+  let rn := RT.rnOf nl
+  (if !lr && (r.leftRecursive || r.leader) then [s!"marked {r.name}"] else []) ++
+  (if r.expr.nul rn && !rn r.name then [s!"nullable-not-closed {r.name}"] else []) ++
+  (if !r.expr.wfs rn then [s!"shape {r.name}"] else []) ++
+  ((r.expr.first rn).filter (fun m => !((lr && RT.ldName E m) || decide (RT.rankOf rk m < RT.rankOf rk r.name)))).map
+    (fun m => s!"cycle {r.name} {m}")
+
+def noBlock : List String := ["<no such block>"]
+
+def emitLean (c : Case) (tl : Rune → Rune) : String :=
+  let E := envOfCase c tl
+  let nl := nullableRules E.rules (E.rules.length + 1) []
+  let lr := E.flags.leftRec
+  let rk := E.rules.map (fun r => (r.name, if lr then rankSearchLR E nl (E.rules.length + 1) r.name
+                                            else rankSearch E nl (E.rules.length + 1) r.name))
+  let rk := rk.filter (fun p => p.2 ≠ 0)
+  let ok := if lr then RT.checkLRWF E nl rk else RT.checkWFG E nl rk
+  let probs := E.rules.flatMap (ruleProblems E lr nl rk)
+  let rules := ",\n  ".intercalate (E.rules.map (fun r => (repr r).pretty 1000000))
+  let rks := ", ".intercalate (rk.map (fun p => "(" ++ (repr p.1).pretty ++ ", " ++ toString p.2 ++ ")"))
+  let argl := c.blocks.map (fun b => (b.id, b.args))
+  let aok := Back.checkArgs E.rules argl
+  let adiff := argl.filter (fun p => (Back.assign E.rules).lookup p.1 != some p.2)
+  s!"-- grammar {c.id} leftRec={lr} checked={ok} argsok={aok}\n" ++
+  "".intercalate (probs.map (fun p => s!"-- problem {c.id} {p}\n")) ++
+  "".intercalate (adiff.map (fun p => s!"-- argdiff {c.id} block {p.1} emitted {leanStrList p.2} model {leanStrList (((Back.assign E.rules).lookup p.1).getD noBlock)}\n")) ++
+  s!"def rules : List PV.Rule := [\n  {rules}]\n" ++
+  s!"def nl : List String := {leanStrList nl}\ndef rk : List (String × Nat) := [{rks}]\n" ++
+  "def args : List (Nat × List String) := [" ++
+    ", ".intercalate (c.blocks.map (fun b => s!"({b.id}, {leanStrList b.args})")) ++ "]\n" ++
+  s!"-- end {c.id} {if ok then 1 else 0}"
 
 end WfgProtocol
 end PV
